@@ -38,6 +38,8 @@ def run_one(pid, tier, repo, replay=None):
         chk.prog = ctx.prog
         chk.units['files'] = ctx.prog.files()
         mod.run(chk, ctx)
+        if replay:
+            return replay_one(chk, replay)
         if tier == 'thorough':
             from . import thorough
             thorough.run_extras(chk, ctx, pid, mod)
@@ -57,6 +59,39 @@ def run_one(pid, tier, repo, replay=None):
         print('ANALYSIS-ERROR property=%s internal error in the analyser\n%s'
               % (pid, tb))
         return 2
+
+
+def replay_one(chk, path):
+    """Re-evaluate the one obligation recorded in a violation file on the
+    current tree and print the same diagnosis (no evidence is written)."""
+    with open(path) as fh:
+        rp = json.load(fh)
+    key = rp['key']
+    hits = [o for o in chk.obligations if o.key == key]
+    same_construct = [o for o in chk.obligations
+                      if o.rule == rp['obligation']['rule'] and
+                      o.construct == rp['obligation']['construct']]
+    bad = [o for o in (hits or same_construct) if not o.ok]
+    if bad:
+        o = bad[0]
+        print('VIOLATION property=%s replay=%s' % (chk.pid, path))
+        print('  rule      %s %s' % (o.rule, chk.rule_texts.get(o.rule, '')))
+        print('  construct %s' % o.construct)
+        if o.site:
+            print('  site      %s' % o.site)
+        print('  fact      %s' % o.fact)
+        if isinstance(o.detail, dict):
+            for k, v in o.detail.items():
+                print('  %-9s %s' % (k, v))
+        return 1
+    if same_construct:
+        print('replay: obligation %s / %s now holds: %s' %
+              (same_construct[0].rule, same_construct[0].construct,
+               same_construct[0].fact))
+        return 0
+    print('replay: the construct %r no longer exists on this tree' %
+          rp['obligation']['construct'])
+    return 0
 
 
 def self_check():
